@@ -115,6 +115,16 @@ def gen(repo):
     _one(r"while \(\(cl = rfbClientIteratorNext\(iterator\)\) != NULL\) \{\s*(?:/\*.*?\*/\s*)?if \(cl->state != RFB_NORMAL\)\s*continue;",
          _body(s, "rfbSendServerCutText", sp), "classic publish skips handshake clients", re.S)
 
+    # ---- server: SupportedMessages lists ClientCutText / ServerCutText unconditionally (brace depth 1)
+    sm = _body(s, "rfbSendSupportedMessages", sp)
+    for bit in ("rfbSetBit(msgs.client2server, rfbClientCutText);", "rfbSetBit(msgs.server2client, rfbServerCutText);"):
+        if sm.count(bit) != 1:
+            raise RuntimeError("C18: %s not found exactly once in rfbSendSupportedMessages" % bit)
+        pre = re.sub(r"/\*.*?\*/", "", sm[:sm.index(bit)], flags=re.S)
+        if pre.count("{") - pre.count("}") != 1:
+            raise RuntimeError("C18: %s is conditional in rfbSendSupportedMessages (the list must not depend on transient state)" % bit)
+    out.append("def srvListsCutText : Bool := true")
+
     # ---- client library
     hm = _body(c, "HandleRFBServerMessage", cp)
     i = hm.index("case rfbServerCutText:")
